@@ -14,3 +14,9 @@ import Dashu.Props.C11Series
 #print axioms Dashu.Props.C11Series.powfGuardDigits_eq
 #print axioms Dashu.Props.C11Series.powiWorkPrec_eq
 #print axioms Dashu.Props.C11Series.workPrec_gt
+#print axioms Dashu.Props.C11Series.expBody_never_exact
+#print axioms Dashu.Props.C11Series.lnBody_never_exact
+#print axioms Dashu.Props.C11Series.expFull_exact_only_zero
+#print axioms Dashu.Props.C11Series.lnFull_exact_only_shortcut
+#print axioms Dashu.Props.C11Series.body_prec
+#print axioms Dashu.Props.C11Series.subUlp_le
